@@ -46,7 +46,7 @@ type unknownAnalyzer struct {
 // Skip() error from that package).
 func (u *unknownAnalyzer) isSkipCall(inf *types.Info, call *ast.CallExpr, reader types.Object) bool {
 	f := core.Callee(inf, call)
-	if f == nil || f.Name() != "Skip" || len(call.Args) != 0 {
+	if f == nil || core.NameOf(f) != "Skip" || len(call.Args) != 0 {
 		return false
 	}
 	sel, ok := core.Unparen(call.Fun).(*ast.SelectorExpr)
@@ -116,7 +116,7 @@ func (u *unknownAnalyzer) analyze(inf *types.Info, fnType *ast.FuncType, body *a
 			return true
 		}
 		f := core.Callee(inf, call)
-		if f == nil || !(f.Name() == "UnmarshalField" || f.Name() == "UnmarshalSetField") || len(call.Args) < 2 {
+		if f == nil || !(core.NameOf(f) == "UnmarshalField" || core.NameOf(f) == "UnmarshalSetField") || len(call.Args) < 2 {
 			return true
 		}
 		if field != nil && core.ObjOf(inf, call.Args[1]) != field {
@@ -343,8 +343,8 @@ func runR063(c *core.Ctx) {
 					if callee == nil {
 						return true
 					}
-					isRecord := callee.Name() == "ReadRecord" && len(call.Args) == 2 && calleeInPkg(callee, codec)
-					isMap := callee.Name() == "ReadMap" && len(call.Args) == 1 && calleeInPkg(callee, codec) && core.RecvNamed(callee) != nil || (callee.Name() == "ReadMap" && len(call.Args) == 1 && isInterfaceMethodOf(callee, codec, "Reader")) || (callee.Name() == "ReadMap" && len(call.Args) == 1 && isInterfaceMethodOf(callee, codec, "rawReader"))
+					isRecord := core.NameOf(callee) == "ReadRecord" && len(call.Args) == 2 && calleeInPkg(callee, codec)
+					isMap := core.NameOf(callee) == "ReadMap" && len(call.Args) == 1 && calleeInPkg(callee, codec) && core.RecvNamed(callee) != nil || (core.NameOf(callee) == "ReadMap" && len(call.Args) == 1 && isInterfaceMethodOf(callee, codec, "Reader")) || (core.NameOf(callee) == "ReadMap" && len(call.Args) == 1 && isInterfaceMethodOf(callee, codec, "rawReader"))
 					if !isRecord && !isMap {
 						return true
 					}
@@ -467,7 +467,7 @@ func sentinelHandled(inf *types.Info, fd *ast.FuncDecl, sentinel types.Object) (
 			return false
 		}
 		cf := core.Callee(inf, call)
-		return cf != nil && cf.Name() == "Skip"
+		return cf != nil && core.NameOf(cf) == "Skip"
 	}
 	// a skip action — `return r.Skip()`, `err = r.Skip()`, `continue` — on the branch where the callback's error is
 	// known to be the sentinel, whatever form the test takes (if, else-if, tagged switch, errors.Is)
